@@ -344,6 +344,7 @@ Inductive life_op :=
 | LUnsub (k : Z) (fs : list string)
 | LDrop (k : Z) (poke : bool) (eof : bool)      (* close the socket / DISCONNECT, or (poke) send PINGREQ and see whether the broker cuts the connection *)
 | LAdmin (cid : string)
+| LExtPut (cid : string) (tp : topics)          (* a persistent session written straight into the store (another broker instance) *)
 | LPub (topic : string) (row : list (string * bool)) (recv : list Z).
 
 Record life_case := { lc_steps : list (life_op * snap); lc_bad : bool }.
@@ -355,6 +356,7 @@ Definition life_events (o : life_op) : list ev :=
   | LUnsub k fs => [Unsubscribe k fs]
   | LDrop k _ _ => [Teardown k]
   | LAdmin cid => [AdminDelete cid]
+  | LExtPut cid tp => [StorePut cid tp]
   | LPub _ _ _ => []
   end.
 
@@ -416,9 +418,10 @@ Fixpoint life_corr (q : quirks) (st : state) (steps : list (life_op * snap)) : b
 Record spec_cid := {
   sp_cur : option Z;            (* the connection that currently owns the client id *)
   sp_sess : option bool;        (* a session exists for the id, with this cleanSession flag *)
-  sp_subs : option topics       (* the subscriptions it must have; None = not determined by the property *)
+  sp_subs : option topics;      (* the subscriptions it must have; None = not determined by the property *)
+  sp_zombie : option Z          (* a connection closed by an admin delete whose end is still pending *)
 }.
-Definition spec0 : spec_cid := {| sp_cur := None; sp_sess := None; sp_subs := Some [] |}.
+Definition spec0 : spec_cid := {| sp_cur := None; sp_sess := None; sp_subs := Some []; sp_zombie := None |}.
 Definition spec_get (sp : list (string * spec_cid)) (cid : string) : spec_cid :=
   match sget cid sp with Some x => x | None => spec0 end.
 
@@ -428,24 +431,31 @@ Definition owner_of (sp : list (string * spec_cid)) (k : Z) : option string :=
   | None => None
   end.
 
+Definition zombie_of (sp : list (string * spec_cid)) (k : Z) : option string :=
+  match find (fun '(_, x) => match sp_zombie x with Some j => j =? k | None => false end) sp with
+  | Some (cid, _) => Some cid
+  | None => None
+  end.
+
 Definition spec_step (sp : list (string * spec_cid)) (o : life_op) : list (string * spec_cid) :=
   match o with
   | LConnect k cid clean =>
       let x := spec_get sp cid in
       let keep := negb clean && match sp_sess x with Some false => true | _ => false end in
-      sset cid {| sp_cur := Some k; sp_sess := Some clean; sp_subs := if keep then sp_subs x else Some [] |} sp
+      sset cid {| sp_cur := Some k; sp_sess := Some clean; sp_subs := if keep then sp_subs x else Some [];
+                  sp_zombie := sp_zombie x |} sp
   | LSub k fs =>
       match owner_of sp k with
       | Some cid => let x := spec_get sp cid in
                     sset cid {| sp_cur := sp_cur x; sp_sess := sp_sess x;
-                                sp_subs := option_map (aset_all String.eqb fs) (sp_subs x) |} sp
+                                sp_subs := option_map (aset_all String.eqb fs) (sp_subs x); sp_zombie := sp_zombie x |} sp
       | None => sp
       end
   | LUnsub k fs =>
       match owner_of sp k with
       | Some cid => let x := spec_get sp cid in
                     sset cid {| sp_cur := sp_cur x; sp_sess := sp_sess x;
-                                sp_subs := option_map (adel_all String.eqb fs) (sp_subs x) |} sp
+                                sp_subs := option_map (adel_all String.eqb fs) (sp_subs x); sp_zombie := sp_zombie x |} sp
       | None => sp
       end
   | LDrop k _ _ =>
@@ -453,13 +463,37 @@ Definition spec_step (sp : list (string * spec_cid)) (o : life_op) : list (strin
       | Some cid =>
           let x := spec_get sp cid in
           match sp_sess x with
-          | Some true => sset cid {| sp_cur := None; sp_sess := None; sp_subs := Some [] |} sp   (* a clean session ends with its connection *)
-          | _ => sset cid {| sp_cur := None; sp_sess := sp_sess x; sp_subs := sp_subs x |} sp    (* a persistent one is kept *)
+          | Some true => sset cid {| sp_cur := None; sp_sess := None; sp_subs := Some []; sp_zombie := sp_zombie x |} sp   (* a clean session ends with its connection *)
+          | _ => sset cid {| sp_cur := None; sp_sess := sp_sess x; sp_subs := sp_subs x; sp_zombie := sp_zombie x |} sp    (* a persistent one is kept: exactly the live set at this moment *)
           end
-      | None => sp                                                                                   (* superseded / deleted connection: nothing may change *)
+      | None =>
+          match zombie_of sp k with
+          | Some cid =>
+              (* the deleted connection finally ends: if nobody took the id meanwhile, the deleted session is gone for good *)
+              let x := spec_get sp cid in
+              match sp_cur x with
+              | None => sset cid {| sp_cur := None; sp_sess := None; sp_subs := Some []; sp_zombie := None |} sp
+              | Some _ => sset cid {| sp_cur := sp_cur x; sp_sess := sp_sess x; sp_subs := sp_subs x; sp_zombie := None |} sp
+              end
+          | None => sp                                                                             (* superseded connection: nothing may change *)
+          end
       end
   | LAdmin cid =>
-      sset cid {| sp_cur := None; sp_sess := Some false; sp_subs := None |} sp
+      let x := spec_get sp cid in
+      match sp_cur x with
+      | Some k => sset cid {| sp_cur := None; sp_sess := Some false; sp_subs := None; sp_zombie := Some k |} sp
+      | None =>
+          match sp_zombie x with
+          | Some _ => sp
+          | None => sset cid {| sp_cur := None; sp_sess := None; sp_subs := Some []; sp_zombie := None |} sp   (* the stored session is deleted *)
+          end
+      end
+  | LExtPut cid tp =>
+      let x := spec_get sp cid in
+      match sp_cur x, sp_zombie x with
+      | None, None => sset cid {| sp_cur := None; sp_sess := Some false; sp_subs := Some (aset_all String.eqb tp []); sp_zombie := None |} sp
+      | _, _ => sset cid {| sp_cur := sp_cur x; sp_sess := sp_sess x; sp_subs := None; sp_zombie := sp_zombie x |} sp
+      end
   | LPub _ _ _ => sp
   end.
 
@@ -482,7 +516,14 @@ Definition spec_holds_cid (sn : snap) (cid : string) (x : spec_cid) : bool :=
        | Some e => topics_eqb (match sget cid (sn_trie sn) with Some tp => tp | None => [] end) e
        | None => true
        end)
-  | None => match sget cid (sn_clients sn) with Some _ => false | None => true end
+  | None =>
+      (* nobody owns the id: it is not registered, and (unless a deleted connection is still around) no
+         subscription of it routes anything *)
+      (match sget cid (sn_clients sn) with Some _ => false | None => true end) &&
+      (match sp_zombie x with
+       | Some _ => true
+       | None => match sget cid (sn_trie sn) with Some (_ :: _) => false | _ => true end
+       end)
   end.
 
 Definition spec_holds (sn : snap) (sp : list (string * spec_cid)) : bool :=
